@@ -34,7 +34,4 @@ func init() {
 	setProp("C10", "DESIGN.md §4 C10",
 		"Decides (whole program, all paths): nothing reachable from a geometry, sequence, envelope or R-tree passed to an operation is written (stores, copy, in-place sort/heap, map update, in-place append), with mutation of plain slice parameters summarised and checked at every call site; no package-level state is written after init; no goroutines, clocks, random sources or locks are used. A read-only heap cannot race.",
 		"the Go memory model beyond 'shared memory is never written'; purity of third-party callees; that sort comparators are total orders; bit-identical output ordering (map-iteration order rule not yet included).")
-	setProp("C13", "DESIGN.md §4 C13",
-		"Decides: the hull algorithm's in-place sort only ever receives freshly allocated slices (instance of the read-only-heap rule).",
-		"minimality and convexity of the hull, correctness of the rotating calipers.")
 }
